@@ -1,6 +1,8 @@
 """C05 - results do not depend on how the edit API is driven or on status settings.
 
-Per pair of trees (x dict strategy x DEFAULT_PRINTER.quiet):
+leg 0: the library's plain driver (diff + edited_cost) with status output on and off over the whole shared pair space and a family of
+lists of near-duplicate mappings: same cost, same script.
+Per pair of trees of a reduced pair space (x dict strategy x DEFAULT_PRINTER.quiet):
   leg 1 (E2)  explicit-state BFS over histories of the public operations {bounds, tighten_bounds, is_complete,
               valid, edits (drained), has_non_zero_cost, refine-the-listed-sub-edits} on the real edit returned by A.edits(B); a state is rebuilt
               by replaying its history on fresh objects and merged by mc.canon.fingerprint; from every visited state
@@ -395,6 +397,73 @@ def cli_eval(a, b):
     return None
 
 
+# ---- leg 0: the plain driver under quiet on / off over a wide pair space ----------------------------------------------
+def leg0_cases(tier):
+    for idx, case in pairspace.all_cases(tier, docs_budget=4 if tier == 'quick' else 5):
+        yield case
+    d1 = {'name': 'widget', 'tag': 'fresh'}
+    d2 = {'name': 'widget'}
+    d3 = {'name': 'widgit', 'tag': 'frosh'}
+    syms = (1, d1, d2, d3) if tier == 'quick' else (1, 2, d1, d2, d3)
+    by_len = {n: [list(t) for t in itertools.product(syms, repeat=n)] for n in range(1, 5)}
+    shapes = [(1, 1), (1, 2), (2, 1), (2, 2), (2, 3), (3, 2), (3, 3)] + ([] if tier == 'quick' else [(3, 4), (4, 3), (2, 4), (4, 2), (1, 3), (3, 1)])
+    for la, lb in shapes:
+        for a in by_len[la]:
+            if not any(isinstance(x, dict) for x in a):
+                continue
+            for b in by_len[lb]:
+                if any(isinstance(x, dict) for x in b) and a != b:
+                    yield {'kind': 'json', 'a': a, 'b': b, 'opt': ['auto', 'on'], 'fam': 'lists_of_similar_mappings'}
+
+
+def plain_result(case, quiet):
+    set_quiet(quiet)
+    ta = pairspace.build(case['kind'], case['a'], case['opt'])
+    tb = pairspace.build(case['kind'], case['b'], case['opt'])
+    d = ta.diff(tb)
+    cost = d.edited_cost()
+    return cost, h(canon_script(d.edit))
+
+
+def leg0_eval(case):
+    old_err = sys.stderr
+    sys.stderr = _Null()
+    try:
+        with time_limit(CASE_TIMEOUT):
+            loud = plain_result(case, False)
+            quiet = plain_result(case, True)
+        if loud[0] != quiet[0]:
+            return {'key': f'cost_depends_on_quiet @ TreeNode.diff : {case["kind"]} dict={case["opt"][0]}, lists={case["opt"][1]}',
+                    'detail': f'{case["a"]!r} -> {case["b"]!r}: cost {loud[0]} with status output, {quiet[0]} when quiet'}
+        if loud[1] != quiet[1]:
+            return {'key': f'script_depends_on_quiet @ TreeNode.diff : {case["kind"]} dict={case["opt"][0]}, lists={case["opt"][1]}',
+                    'detail': f'{case["a"]!r} -> {case["b"]!r}: same cost {loud[0]}, different script'}
+        return None
+    except CaseTimeout:
+        return {'key': f'timeout @ diff : {case["kind"]}', 'detail': repr(case)[:300]}
+    except Exception as ex:  # noqa
+        import traceback
+        return {'key': f'exception {type(ex).__name__} @ {site_of(ex)} : plain driver, quiet on/off', 'detail': traceback.format_exc()[-900:]}
+    finally:
+        sys.stderr = old_err
+        set_quiet(True)
+
+
+def _leg0_shard(i, n, tier, payload):
+    r = Result()
+    for idx, case in enumerate(leg0_cases(tier)):
+        if idx % n != i:
+            continue
+        r.evaluations += 2
+        fail = leg0_eval(case)
+        if fail:
+            r.fail(fail['key'], dict(case, leg0=True), fail['detail'], order=idx)
+        else:
+            r.outcomes.add(h(('leg0', idx)))
+    r.extra['leg0_pairs'] = r.evaluations // 2
+    return r
+
+
 def _shard(i, n, tier, payload):
     r = Result()
     ps = pairs(tier)
@@ -423,6 +492,7 @@ def _shard(i, n, tier, payload):
 
 def run(ctx):
     res = run_sharded(ctx, __name__, '_shard', ctx.workers * 16)
+    res.merge(run_sharded(ctx, __name__, '_leg0_shard', ctx.workers * 4))
     res.extra['bfs_depth'] = 6 if ctx.quick else 8
     res.extra['injected_ops_bound_completed'] = 1 if ctx.quick else 2
     res.extra['post_diff_sequence_length'] = 2 if ctx.quick else 3
@@ -434,6 +504,8 @@ def run(ctx):
 
 
 def replay(case):
+    if case.get('leg0'):
+        return leg0_eval(case)
     if 'cli' in case:
         return cli_eval(case['cli'][0], case['cli'][1])
     for tier in ('quick',):
